@@ -120,7 +120,7 @@ func init() {
 				}
 				return tvSlice("[]int", l...)
 			}
-			words := []string{"red", "blue", "re", "x y", "日本", " \"q\" #", "a\"b", strings.Repeat("a", 32)}
+			words := []string{"red", "blue", "re", "x y", "日本", " \"q\" #", "a\"b", strings.Repeat("a", 32), "red\nblue", "a,b;c", "t\tu", "nul\x00l"}
 			// dedicated: a kept interval with bounds beyond float64 precision next to a long list (so the
 			// conjunction is cached), probed at both edges, on cold and warm builds
 			for _, kind := range []string{"kgroups", "compact"} {
@@ -185,6 +185,10 @@ func init() {
 					{ID: 3, Cons: []eConj{{kws(false, "a"), {F: 0, Inc: true, V: longInts(5)}}}},                                     // cached (long list)
 					{ID: 4, Cons: []eConj{{kws(true, "green", "blues")}, {kws(false, "yellow"), {F: 0, Inc: true, V: longInts(2)}}}}, // parsed
 					{ID: 5, Cons: []eConj{{kws(true, "日", "日本語", "é")}}},                                                             // cached
+					{ID: 6, Cons: []eConj{{kws(true, "red\nblue", "a,b", "t\tu", "q\x00r")}}},                                        // cached: keywords holding the characters a home-made codec would split on
+				}
+				for _, t := range []string{"red\nblue", "a,b", "a", "b", "t\tu", "t", "q\x00r", "q", "blue"} {
+					c.Queries = append(c.Queries, eQuery{A: []eAssign{{F: 1, V: tvStr(t)}}})
 				}
 				for _, t := range []string{"", "r", "re", "a", "xa", "e", "red", "blue", "x y", "日", "日本", "é", "ared", "blues", "zz", "yellow a"} {
 					c.Queries = append(c.Queries, eQuery{A: []eAssign{{F: 1, V: tvStr(t)}}}, eQuery{A: []eAssign{{F: 1, V: tvStr(t)}, {F: 0, V: tvInt("int", 1)}}})
